@@ -205,6 +205,9 @@ pub struct SchemaOpts {
   pub fast_8: u64,
   pub max_depth: usize,
   pub text: bool,
+  /// prefer two nested fields / two child objects per level (filters that interleave clauses
+  /// on different nested paths need them)
+  pub multi_nested: bool,
 }
 
 fn gen_leaf(rng: &mut Rng, name: &str, kind: K, o: &SchemaOpts) -> LeafS {
@@ -235,6 +238,7 @@ fn gen_nested(rng: &mut Rng, name: &str, depth: usize, o: &SchemaOpts) -> Nested
     let nc = match rng.below(4) {
       0 => 0,
       3 => 2,
+      2 if o.multi_nested => 2,
       _ => 1,
     };
     for i in 0..nc {
@@ -256,6 +260,7 @@ pub fn gen_schema(rng: &mut Rng, o: &SchemaOpts) -> SchemaS {
   let nn = match rng.below(8) {
     0 => 0,
     6 | 7 => 2,
+    3 | 4 | 5 if o.multi_nested => 2,
     _ => 1,
   };
   let nested = (0..nn).map(|i| gen_nested(rng, NESTED_NAMES[0][i], 0, o)).collect();
@@ -827,7 +832,7 @@ impl Prop for C15 {
     tier.pick(1500, 60000)
   }
   fn gen(&self, rng: &mut Rng, _tier: Tier, i: usize) -> Value {
-    let o = SchemaOpts { fast_8: 4, max_depth: 3, text: true };
+    let o = SchemaOpts { fast_8: 4, max_depth: 3, text: true, multi_nested: false };
     let s = gen_schema(rng, &o);
     let mut doc = gen_valid_doc(rng, &s, &format!("d{i}"));
     let later = gen_valid_doc(rng, &s, &format!("later{i}"));
